@@ -194,6 +194,18 @@ func (w *World) indexFuncs() {
 	})
 }
 
+// isGenerated: the function is declared in generated code (*.pb.go, *.pb.gw.go, *.pulsar.go).
+func (w *World) isGenerated(fn *ssa.Function) bool {
+	for fn.Parent() != nil {
+		fn = fn.Parent()
+	}
+	if !fn.Pos().IsValid() {
+		return false
+	}
+	f := w.Fset.Position(fn.Pos()).Filename
+	return strings.HasSuffix(f, ".pb.go") || strings.HasSuffix(f, ".pb.gw.go") || strings.HasSuffix(f, ".pulsar.go")
+}
+
 // FuncOf returns the SSA function for a declared function/method object of a
 // repository package (nil when it has no body in the analysed packages).
 func (w *World) FuncOf(obj *types.Func) *ssa.Function {
